@@ -423,16 +423,67 @@ def _resolve_local(nb, e):
 
 # ---- R5 ---------------------------------------------------------------------------------------------
 
+def _ns_condition(cond, branch, elem, ctx):
+    """'eq-target-namespace' | 'no-namespace' | 'other' for a condition over <elem>.in_namespace taken on `branch`"""
+    ns_field = ("field", elem, "in_namespace")
+    c = cond
+    while c[0] == "not":
+        c, branch = c[1], not branch
+    if c[0] == "binop" and c[1] in ("Eq", "Ne"):
+        if c[1] == "Ne":
+            branch = not branch
+        sides = [c[2], c[3]]
+        mine = [x for x in sides if _strip_opt(x) == ns_field]
+        other = [x for x in sides if _strip_opt(x) != ns_field]
+        if len(mine) == 1 and len(other) == 1 and branch:
+            o = _strip_opt(other[0])
+            if o[0] == "call" and o[1] == "Some" and len(o[2]) == 1:
+                o = o[2][0]
+                tn_stars = [s for s in ctx if s[0] == "star" and og.nf_str(s[1]) == "self.target_namespaces"]
+                if tn_stars and _strip_opt(o) == ("elem", tn_stars[0][1]):
+                    return "eq-target-namespace"
+            if og.nf_str(o) == "None":
+                return "no-namespace"
+        return "other"
+    if c[0] == "call" and str(c[1]).rsplit("::", 1)[-1] in ("is_none", "is_some") and c[2] and _strip_opt(c[2][0]) == ns_field:
+        is_none = str(c[1]).endswith("is_none")
+        return "no-namespace" if is_none == branch else "other"
+    if c[0] == "islet" and _strip_opt(c[2]) == ns_field:
+        lab = c[1].rsplit("::", 1)[-1]
+        if (lab == "None") == branch and lab in ("None",):
+            return "no-namespace"
+        if lab.startswith("Some(") and not branch:
+            return "no-namespace"
+    return "other"
+
+
+def _strip_opt(n):
+    """look through as_ref / as_deref / clone / borrow wrappers"""
+    while isinstance(n, tuple) and n[0] == "call" and str(n[1]).rsplit("::", 1)[-1] in ("as_ref", "as_deref", "clone", "borrow", "deref") and len(n[2]) == 1:
+        n = n[2][0]
+    return n
+
+
 def rule_emission(ck, F, X):
     node_calls = [ev for ev in X.events.get(T.ROOT, []) if ev.kind == "call" and "node::RustNode" in ev.callee]
-    descs = sorted(og.nf_str(ev.args[0]) for ev in node_calls)
-    want = sorted(["each(filter(self.nodes, (each(self.nodes).in_namespace Eq Some(each(self.target_namespaces)))))",
-                   "each(filter(self.nodes, is_none(each(self.nodes).in_namespace)))"])
-    if descs == want:
+    # each emission site: which nodes of self.nodes it visits, read off the loop context (loops, filters, if/continue alike)
+    kinds = []
+    for ev in node_calls:
+        elem = ev.args[0]
+        over_nodes = any(c[0] == "star" and og.nf_str(c[1]) == "self.nodes" for c in ev.ctx) and elem == ("elem", ("field", ("param", "self"), "nodes"))
+        conds = [(c[1], c[2]) for c in ev.ctx if c[0] == "alt" and "in_namespace" in og.nf_str(c[1])]
+        others = [c for c in ev.ctx if c[0] == "alt" and "in_namespace" not in og.nf_str(c[1])
+                  and og.nf_str(elem) in og.nf_str(c[1])]
+        kind = "other"
+        if over_nodes and len(conds) == 1 and not others:
+            kind = _ns_condition(conds[0][0], conds[0][1], elem, ev.ctx)
+        kinds.append(kind)
+    if sorted(kinds) == ["eq-target-namespace", "no-namespace"]:
         ck.ok("R5", "two-partitioning-loops", node_calls[0].site, "nodes are emitted by `in_namespace == Some(ns)` per target namespace and by `in_namespace.is_none()`")
     else:
         ck.violation("R5", "two-partitioning-loops", node_calls[0].site if node_calls else "-",
-                     f"node emission loops are {descs}; expected exactly the namespace loop and the no-namespace loop (a node could be emitted twice or never)")
+                     f"node emission sites select {kinds} of self.nodes ({[T.ctx_str(ev.ctx)[:120] for ev in node_calls]}); expected exactly the "
+                     f"per-target-namespace selection and the no-namespace selection (a node could be emitted twice or never)")
     for ev in node_calls:
         inner = [c for c in ev.ctx if c[0] == "star"]
         if ev.propagated != "try":
